@@ -14,14 +14,18 @@ import (
 	"fmt"
 	"io"
 	"os"
+	"errors"
 	"strconv"
+	"strings"
 	"sync"
 	"sync/atomic"
 
 	"github.com/cloudwego/gopkg/bufiox"
 	"github.com/cloudwego/gopkg/container/strmap"
 	"github.com/cloudwego/gopkg/protocol/thrift"
+	"github.com/cloudwego/gopkg/protocol/thrift/apache"
 	"github.com/cloudwego/gopkg/protocol/thrift/base"
+	"github.com/cloudwego/gopkg/protocol/thrift/unknownfields"
 	"github.com/cloudwego/gopkg/protocol/ttheader"
 )
 
@@ -188,7 +192,131 @@ func cycle(g, it int) {
 	}
 }
 
+// withUnknown is a generated-style struct that keeps the fields it does not know (distinct VALUES of one TYPE are used
+// by different goroutines: anything the library memoises per type is shared).
+type withUnknown struct {
+	A              int32
+	_unknownFields []byte
+}
+
+// everything below works on values owned by the calling goroutine; what the library builds lazily or memoises at
+// package level on the way (default texts, per-type lookups, registries that are only read) is shared.  The FIRST calls
+// happen concurrently: main performs none of them before the goroutines start.
+func helpers(g, it int) {
+	id := int32(1000 + g*131 + it)
+	for _, e := range []error{thrift.NewApplicationException(id, ""), thrift.NewApplicationException(int32(it%11), ""), thrift.NewApplicationException(id, "m"),
+		thrift.NewProtocolException(id, ""), thrift.NewTransportException(id, ""), thrift.NewProtocolExceptionWithErr(io.ErrUnexpectedEOF)} {
+		t1 := e.Error()
+		if t2 := fmt.Sprint(e); t1 != t2 {
+			fail("goroutine %d: the text of an exception changes between two renderings", g)
+		}
+		p := thrift.PrependError("ctx: ", e)
+		if !strings.HasPrefix(p.Error(), "ctx: ") {
+			fail("goroutine %d: PrependError lost the prefix", g)
+		}
+		var pe *thrift.ProtocolException
+		if errors.As(e, &pe) {
+			_ = errors.Is(e, thrift.NewProtocolException(pe.TypeId(), pe.Msg())) // (what matches is C18's business)
+			_ = errors.Is(e, io.ErrUnexpectedEOF)
+		}
+	}
+	ae := thrift.NewApplicationException(id, "")
+	enc := thrift.FastMarshal(ae)
+	back := thrift.NewApplicationException(0, "x")
+	if _, err := back.FastRead(enc); err != nil || back.TypeID() != id || back.Msg() != "" {
+		fail("goroutine %d: exception round trip is foreign/corrupt", g)
+	}
+	// unknown fields kept by a struct value of the goroutine's own
+	fields := []byte{8, 0, 9, 0, 0, 0, byte(g), 11, 0, 10, 0, 0, 0, 2, 'h', byte('a' + g%26), 0}
+	wu := &withUnknown{A: int32(g), _unknownFields: fields[:len(fields)-1]}
+	fs, err := unknownfields.GetUnknownFields(wu)
+	if err != nil || len(fs) != 2 || fs[0].ID != 9 || fs[1].ID != 10 || fs[1].Value.(string) != "h"+string(rune('a'+g%26)) {
+		fail("goroutine %d: GetUnknownFields returned foreign/corrupt fields (%v)", g, err)
+		return
+	}
+	n, err := unknownfields.UnknownFieldsLength(fs)
+	out := make([]byte, n)
+	if m, err2 := unknownfields.WriteUnknownFields(out, fs); err != nil || err2 != nil || m != n || !bytes.Equal(out, fields[:len(fields)-1]) {
+		fail("goroutine %d: unknown fields written back differ", g)
+	}
+	if _, err := unknownfields.GetUnknownFields(*wu); err != nil {
+		fail("goroutine %d: GetUnknownFields on a struct value: %v", g, err)
+	}
+	// the apache bridge's registries are only read here (nothing is registered in this process)
+	if apache.CheckTStruct(wu) == nil || apache.ThriftRead(nil, wu) == nil || apache.ThriftWrite(nil, wu) == nil {
+		fail("goroutine %d: an unregistered apache callback returned nil", g)
+	}
+	var bb bytes.Buffer
+	tr := apache.NewBufferTransport(&bb)
+	tr.Write([]byte{byte(g), 2, 3})
+	if tr.RemainingBytes() != 3 || bb.Len() != 3 || bb.Bytes()[0] != byte(g) {
+		fail("goroutine %d: buffer transport shows foreign state", g)
+	}
+}
+
+// firstCalls: the "first" mode.  Whatever the library builds lazily at package level is built by the FIRST call that
+// needs it; a race on it exists only between that call and the others.  A fresh process is started for this mode
+// (several times): 16 goroutines are released together and each makes its first calls in another order, with nothing
+// before them that would synchronise the goroutines with each other.
+func firstCalls(g int) {
+	bodies := []func(){
+		func() {
+			wu := &withUnknown{A: int32(g), _unknownFields: []byte{8, 0, 9, 0, 0, 0, byte(g)}}
+			if fs, err := unknownfields.GetUnknownFields(wu); err != nil || len(fs) != 1 {
+				fail("goroutine %d: GetUnknownFields (first call): %v", g, err)
+			}
+		},
+		func() {
+			if thrift.NewApplicationException(int32(5000+g), "").Error() == "" {
+				fail("goroutine %d: empty default text", g)
+			}
+		},
+		func() {
+			bx := &base.Base{LogID: "l", Caller: "c", Addr: "a", Extra: map[string]string{"k": "v"}}
+			var by base.Base
+			if _, err := by.FastRead(thrift.FastMarshal(bx)); err != nil || by.Extra["k"] != "v" {
+				fail("goroutine %d: Base round trip (first call)", g)
+			}
+		},
+		func() {
+			b, err := ttheader.EncodeToBytes(context.Background(), ttheader.EncodeParam{SeqID: int32(g), StrInfo: map[string]string{"k": "v"}})
+			if err != nil {
+				fail("encode: %v", err)
+				return
+			}
+			if p, err := ttheader.DecodeFromBytes(context.Background(), b); err != nil || p.SeqID != int32(g) {
+				fail("goroutine %d: ttheader round trip (first call)", g)
+			}
+		},
+		func() { helpers(g, 0) },
+		func() { cycle(g, 0) },
+	}
+	for i := range bodies {
+		bodies[(i+g)%len(bodies)]()
+	}
+}
+
 func main() {
+	if len(os.Args) > 1 && os.Args[1] == "first" {
+		var start int32
+		var wg sync.WaitGroup
+		for g := 0; g < 16; g++ {
+			wg.Add(1)
+			go func(g int) {
+				defer wg.Done()
+				for atomic.LoadInt32(&start) == 0 {
+				}
+				firstCalls(g)
+			}(g)
+		}
+		atomic.StoreInt32(&start, 1)
+		wg.Wait()
+		if failures > 0 {
+			os.Exit(1)
+		}
+		fmt.Println("racepass first-calls ok")
+		return
+	}
 	iters := 300
 	if len(os.Args) > 1 {
 		iters, _ = strconv.Atoi(os.Args[1])
@@ -210,6 +338,7 @@ func main() {
 		go func(g int) {
 			defer wg.Done()
 			for it := 0; it < iters; it++ {
+				helpers(g, it)
 				cycle(g, it)
 			}
 		}(g)
